@@ -644,6 +644,7 @@ pub fn c17(cx: &Ctx) -> Vec<Finding> {
         .iter()
         .enumerate()
         .filter_map(|(i, e)| match e {
+            Ev::Panic { message, .. } if message.starts_with("harness:") => None,
             Ev::Panic { message, location } => {
                 let file = location.rsplit('/').next().unwrap_or("").to_string();
                 Some(finding("C17", format!("C17:panic@{file}"), format!("panic: {message} at {location}"), i))
